@@ -201,6 +201,8 @@ func runC12Shape(c *Ctx) {
 			switch FuncName(g) {
 			case "geom.(Envelope).IsEmpty", "geom.(Envelope).IsPoint", "geom.(Envelope).IsLine", "geom.(Envelope).IsRectangle":
 				return true
+			case "geom.(Envelope).BoundingDiagonal":
+				return name == "AsGeometry" // AsGeometry may delegate the degenerate shapes to it
 			}
 			return false
 		}
